@@ -38,6 +38,22 @@ CLAIMS = {
         "gives det=+-2 and TU of every one-row-one-column deletion. Tie: every 'no' of CMRtuTest with a submatrix requested (greedy and "
         "naive search, three algorithms, option masks) is validated by these deciders on the C01 domains.",
    technique="Lean 4 certificate-checker soundness theorems + validation of every returned violator", design="5/C07"),
+ "C02": dict(
+   text="Proof: the regularity oracle (row-by-row signing search with TU pruning) is proved sound and complete: isRegular M <-> M is 0/1 and "
+        "some signing of its nonzeros is totally unimodular in Mathlib's sense (completeness uses that every row prefix of a TU matrix is TU); "
+        "non-binary input is not regular; a binary TU matrix is regular. Tie: CMRregularTest on every 0/1 matrix up to 4x4 (thorough 4x5/5x4), "
+        "seeded 5x5..6x6 matrices under option masks, non-binary inputs. The cross-check through Camion signing rests on Camion's theorem, "
+        "which is tested (C09), not proved.",
+   technique="Lean 4 soundness+completeness proof of the signing-search oracle + exhaustive small-domain correspondence", design="5/C02"),
+ "C11": dict(
+   text="Partial. Proof: the scratch allocator of env.c is transcribed (alloc/free/usage for both header sizes) with an invariant preserved by "
+        "every step; alloc followed by free restores the observable state exactly; every well-bracketed alloc/free sequence restores it "
+        "(balanced_restores, also for the inductive nesting formulation); alloc is total below 2^40; the model reproduces the misalignment "
+        "defect. Tie: seeded alloc/free words replayed on the real allocator (assert and NDEBUG builds), usage and address alignment compared "
+        "after every step; every public call of every op family is bracketed (usage before = after, LIFO order, depth 0) and runs under "
+        "ASan+UBSan+LSan with poisoned red zones around scratch chunks. Memory safety of the 43k lines of C is observed on the explored "
+        "inputs, not proved.",
+   technique="Lean 4 invariant/refinement proof of the allocator model + exact replay on the real allocator + sanitizer-observed op sweep", design="5/C11"),
 }
 
 def main():
